@@ -138,11 +138,12 @@ class CheckListHistory(BoundedCheck):
         return out
 
 
+from contracts.c09_containers import AddVariable, SetAttrVariable
 from contracts.c11_copy import InitOwnership
 
 PROPERTY = PropertySpec(
     id='C04',
-    contracts=[_c, SolveContract(), InitOwnership('model'), ProgramsContract(catalogue(os.environ.get('VERIF_TIER', 'quick'), int(os.environ.get('VERIF_SEED', '0'))))],
+    contracts=[_c, SolveContract(), InitOwnership('model'), AddVariable(), SetAttrVariable(), ProgramsContract(catalogue(os.environ.get('VERIF_TIER', 'quick'), int(os.environ.get('VERIF_SEED', '0'))))],
     bounded=[SolveTScripted(), EvaluateDifferential(), InfeasiblePeriod(), CheckListHistory()],
     level='other',
     explanation='Frame obligations of BaseModel.solve_t from its real source: status/iterations change only at t; the three up-front '
